@@ -15,8 +15,8 @@ from vf.hlib import call, cf_guard, fail, notrace, pick, tracing
 
 ORDER = ["A", "B", "C"]          # C derives from A
 PARENT = {"A": "Base", "B": "Base", "C": "A"}
-TAG = {"A": "a", "B": "b", "C": "c", "Base": "base"}
-TAGS = ["a", "b", "c", "zz", None]  # None = tag absent
+TAG = {"A": "a", "B": 0, "C": "", "Base": "base"}   # falsy tags are tags too
+TAGS = ["a", 0, "", "zz", None]  # None = tag absent
 
 
 class S_:
@@ -24,8 +24,9 @@ class S_:
 
 
 class Family:
-    def __init__(self, style, supertypes=False, tagger=False, mixin=True, fmt=None):
+    def __init__(self, style, supertypes=False, tagger=False, mixin=True, fmt=None, predef=False):
         self.style, self.supertypes, self.tagger, self.mixin, self.fmt = style, supertypes, tagger, mixin, fmt
+        self.predef = predef
         self.classes = {}
         bases = (DataClassDictMixin,) if mixin else ()
         if fmt == "json":
@@ -92,7 +93,7 @@ class Family:
         elig = [self.classes[n] for n in ORDER if n in self.classes]
         if self.supertypes and self.style != "config":
             elig.append(self.classes["Base"])
-        hit = [c for c in elig if self.tag_of(c) == tag]
+        hit = [c for c in elig if self.tag_of(c) == tag and type(self.tag_of(c)) is type(tag)]
         if len(hit) == 1:
             return ("ok", hit[0])
         return ("notfound",)
@@ -159,16 +160,21 @@ def make_input_plan(T, variant, k=3, **kw):
     return ctx, HistInput(ctx, k)
 
 
-def setup(T, NODE, CTX, variant, k=3, style="config", supertypes=False, tagger=False, mixin=True, fmt=None):
+def setup(T, NODE, CTX, variant, k=3, style="config", supertypes=False, tagger=False, mixin=True, fmt=None, predef=False):
     S = S_()
     S.node, S.ctx, S.variant = NODE, CTX, variant
-    S.fam_args = dict(style=style, supertypes=supertypes, tagger=tagger, mixin=mixin, fmt=fmt)
+    S.fam_args = dict(style=style, supertypes=supertypes, tagger=tagger, mixin=mixin, fmt=fmt, predef=predef)
     return S
 
 
 def run_history(S, events, x_last, x_sym):
     fam = Family(**S.fam_args)
     nxt = 0
+    if fam.predef:
+        # the whole hierarchy exists before the first call; the history then only orders the lookups
+        for n in ORDER:
+            fam.define(n)
+        nxt = len(ORDER)
     for j, e in enumerate(events):
         last = j == len(events) - 1
         if e == 0:
@@ -194,8 +200,9 @@ def hist_main(S, env):
         fam, sig, info = run_history(S, events, 0, None)
     if sig:
         return fail(sig, **info)
-    if info:
-        # the last decode once more, traced, with a symbolic payload (everything it needs is compiled by now)
+    if info and fam.expected(info[0])[0] == "ok":
+        # the last decode once more, traced, with a symbolic payload (everything it needs is compiled by now); error
+        # outcomes were already compared untraced (raising them traced with a symbolic payload trips CrossHair)
         bad = observe(fam, info[0], env[S.node.x])
         if bad:
             return fail("C12/%s" % bad, events=events, traced=True)
@@ -232,9 +239,10 @@ def step_main(S, env):
                 bad = observe(fam, t2, 6)
                 if bad:
                     return fail("C12/%s" % bad, defined=ORDER[:p + 1], cached=sorted(reg), tag=t2, after_definition=True)
-    bad = observe(fam, tag, env[S.node.x])
-    if bad:
-        return fail("C12/%s" % bad, defined=ORDER[:p], tag=tag, traced=True)
+    if fam.expected(tag)[0] == "ok":
+        bad = observe(fam, tag, env[S.node.x])
+        if bad:
+            return fail("C12/%s" % bad, defined=ORDER[:p], tag=tag, traced=True)
     return True
 
 
@@ -250,6 +258,10 @@ def twin(S, env):
     else:
         ev = S.node.make(env)
         # define, decode 'a', define, ..., ends with a decode of a known tag
+        if S.fam_args.get("predef"):
+            if not (ev[0] == 1 and ev[-1] == 3):
+                return True
+            return not main(S, env)
         if not (ev[0] == 0 and ev[-1] in (1, 2) and 0 in ev[1:]) and len(ev) > 2:
             return True
         if len(ev) <= 2 and not (ev[0] == 0 and ev[-1] == 1):
